@@ -115,6 +115,8 @@ namespace plan
     }
     else if (name == "xorn")
       op.a = {static_cast<long>(r.below(4)), static_cast<long>(r.below(1000))};
+    else if (name == "pin")
+      op.a = {static_cast<long>(r.below(6)), static_cast<long>(r.below(5)), static_cast<long>(r.below(3)), static_cast<long>(r.below(32))};
     else if (name == "spred")
       op.a = {static_cast<long>(r.below(4)), static_cast<long>(r.below(2))};
     else if (name == "cut")
@@ -318,7 +320,7 @@ namespace plan
     if (objects)
       w.add("inst", 12), w.add("ovar", 8), w.add("oeq", 8), w.add("enumv", 3), w.add("eeq", 4);
     if (causal)
-      w.add("goal", 10), w.add("fact", 8), w.add("disj", prop == "C02" || prop == "C03" || prop == "C19" ? 5 : 2);
+      w.add("goal", 10), w.add("fact", 8), w.add("disj", prop == "C02" || prop == "C03" || prop == "C19" ? 5 : 2), w.add("pin", prop == "C19" ? 5 : 1);
     if (sv)
       w.add("svinst", 5), w.add("goal", 8), w.add("fact", 6), w.add("horizon", 2), w.add("ovar", 2);
     if (rr)
